@@ -752,13 +752,21 @@ func runE2E(r *hx.Rng, mode string, neps, nconns int) *E2E {
 		}
 		line, err := br.ReadString('\n')
 		tag := strings.TrimSuffix(line, "\n")
+		burst := 0
 		if err != nil {
 			tag = "<no tag line: " + tag + ">"
+		} else if f := strings.Fields(tag); len(f) == 2 {
+			tag = f[0]
+			burst, _ = strconv.Atoi(f[1])
 		}
 		mu.Lock()
 		seen = append(seen, seenRec{ep, tag, conn.RemoteAddr().String()})
 		mu.Unlock()
 		fmt.Fprintf(conn, "EP %s GOT %s REMOTE %s\n", ep, tag, conn.RemoteAddr().String())
+		if burst > 0 {
+			// one single Write of the connection's own tag, large enough to fill the proxy's read buffers
+			conn.Write(burstOf(tag, burst))
+		}
 		io.Copy(conn, br) // echo
 	}
 	w, err := e2e.NewWorld(mode, lookup, names, handler)
@@ -770,6 +778,7 @@ func runE2E(r *hx.Rng, mode string, neps, nconns int) *E2E {
 	back := w.Back.Listener.Addr().String()
 
 	type plan struct {
+		burst                 int
 		tag, domain, expectEP string
 		sni                   bool
 		chunks                [][]byte
@@ -790,6 +799,7 @@ func runE2E(r *hx.Rng, mode string, neps, nconns int) *E2E {
 			k := r.Intn(2 * neps)
 			p.domain = fmt.Sprintf("site%d.example", k)
 			p.expectEP = fmt.Sprintf("/ep%d", k%neps)
+			p.burst = []int{32768, 65536, 100000, 32768, 0}[r.Intn(5)]
 			res.Valid++
 		}
 		if r.Intn(3) == 0 && p.sni && net.ParseIP(p.domain) == nil {
@@ -828,7 +838,7 @@ func runE2E(r *hx.Rng, mode string, neps, nconns int) *E2E {
 			}
 			defer conn.Close()
 			conn.SetDeadline(time.Now().Add(20 * time.Second))
-			if _, err := conn.Write(append(append([]byte{}, p.hello...), []byte(p.tag+"\n")...)); err != nil {
+			if _, err := conn.Write(append(append([]byte{}, p.hello...), []byte(fmt.Sprintf("%s %d\n", p.tag, p.burst))...)); err != nil {
 				if p.expectEP != "" {
 					fail(p, "write", "written", err.Error())
 				}
@@ -860,6 +870,36 @@ func runE2E(r *hx.Rng, mode string, neps, nconns int) *E2E {
 			fmu.Lock()
 			res.Addrs = append(res.Addrs, AddrObs{Front: conn.LocalAddr().String(), Remote: remote, Back: back})
 			fmu.Unlock()
+			if p.burst > 0 {
+				// the backend's single large Write: every byte must be this connection's own tag
+				want := burstOf(p.tag, p.burst)
+				got := make([]byte, p.burst)
+				if n, err := io.ReadFull(br, got); err != nil {
+					fail(p, "burst-short", fmt.Sprintf("%d bytes", p.burst), fmt.Sprintf("%d bytes, %v", n, err))
+					return
+				}
+				if !bytes.Equal(got, want) {
+					k := 0
+					for k < len(got) && got[k] == want[k] {
+						k++
+					}
+					other := ""
+					if i := bytes.Index(got[k:], []byte("conn-")); i >= 0 {
+						j := k + i
+						e := j
+						for e < len(got) && got[e] != '|' {
+							e++
+						}
+						other = string(got[j:e])
+					}
+					fail(p, "burst-foreign-bytes", "its own tag throughout the backend's single Write of "+strconv.Itoa(p.burst)+" bytes",
+						fmt.Sprintf("from offset %d bytes of %q", k, other))
+					return
+				}
+				fmu.Lock()
+				res.Echoed += p.burst
+				fmu.Unlock()
+			}
 			for _, chunk := range p.chunks {
 				werr := make(chan error, 1)
 				go func() { _, e := conn.Write(chunk); werr <- e }()
@@ -1474,6 +1514,11 @@ func runHist(r *hx.Rng, corpus bool) *HistCase {
 		}
 	}
 	return c
+}
+
+// burstOf is n bytes of "tag|tag|...".
+func burstOf(tag string, n int) []byte {
+	return bytes.Repeat([]byte(tag+"|"), n/(len(tag)+1)+1)[:n]
 }
 
 // ---- main ----
